@@ -371,8 +371,10 @@ func TestL5Hosts(t *testing.T) {
 		for i, l := range c.Lazy {
 			if l {
 				nl++
-				if c.Streams[i].Fwd.Total == 0 {
+				if len(c.Streams[i].Fwd.Writes) == 0 {
 					labels = append(labels, "lazy:closewrite-before-any-write")
+				} else if c.Streams[i].Fwd.Total == 0 {
+					labels = append(labels, "lazy:empty-write-then-closewrite")
 				}
 			} else {
 				ne++
